@@ -150,13 +150,12 @@ SPEC = dict(
 )
 
 MANIFEST = dict(
-    text='37 Coq theorems over all real arguments on definitions regenerated from tools.py/laue.py: each constructor equals the documented '
+    text='41 Coq theorems over all real arguments on definitions regenerated from tools.py/laue.py: each constructor equals the documented '
          'composition (Rz Rx Rz; Rx Ry Rz; P Rz P^T; axis-angle facts for Rodrigues incl. passive sense) and is a proper rotation; '
-         'u_to_rod/rod_to_u are mutual inverses on SO(3) minus 180-degree rotations; u_to_euler returns angles in [0,2pi]x[0,pi]x[0,2pi] for every input, '
-         'euler_to_u(u_to_euler U) = U exactly for every rotation outside the code\'s own tolerance bands (gimbal band 1e-8, an _arctan2 argument below 1e-8 '
-         'of the other), and u_to_euler(euler_to_u(a)) = a there. Inside the bands (error <= 1e-6 claimed by the property) the behaviour is decided by the '
-         'directed numeric search on the implementation only.',
+         'u_to_rod/rod_to_u are mutual inverses on SO(3) minus 180-degree rotations; u_to_euler never raises on a rotation, returns angles in '
+         '[0,2pi]x[0,pi]x[0,2pi], and euler_to_u(u_to_euler U) is within 1e-6 of U in every entry for EVERY rotation U, whatever branch of the code is '
+         'taken (gimbal bands, _arctan2 arguments snapped to an axis, generic); outside the tolerance bands the inverse is exact in both directions.',
     design_ref='DESIGN.md section 5 C03 and section 10',
-    note='Trusted: Coq kernel, R axioms, T1 tracer. Partial only inside the tolerance bands of u_to_euler (search).',
-    technique='Coq proof over R of generated model (ring/nsatz in the orthonormality ideal, atan2 lemmas); numeric search inside the Euler tolerance bands',
+    note='Trusted: Coq kernel, R axioms, T1 tracer. Floats are modelled by reals.',
+    technique='Coq proof over R of generated piecewise model (nsatz in the orthonormality ideal, atan2 lemmas, entrywise perturbation bounds); numeric search on the implementation',
 )
